@@ -76,9 +76,9 @@ PROPS = {
     "C19": {
         "vx": ["identity"],
         "kx": [],
-        "technique": "Verus contracts on the extracted RawDoc::verified, Threshold::new, Delegates accessors, Doc accessors: every Doc constructed satisfies valid() (1..=255 distinct delegates, 1 <= threshold <= #delegates)",
-        "explanation": "RawDoc::verified is proved to return Ok only with a Doc satisfying valid() whose delegates/threshold/visibility are those of the raw document; Threshold::new is Ok exactly for 1 <= t <= min(255, #delegates).",
-        "not_decided": "Delegates::new (try_fold closure) is assumed (external_body) -- a Kani harness for it did not terminate within 40 min and is not registered; version check, serde/JSON decoding, encode/decode round-trip and RepoId == blob hash of canonical encoding are outside Verus (serde_json, git2): not decided.",
+        "technique": "Verus contracts on the extracted Delegates::new (its try_fold closure lifted verbatim to a named fn with a contract; std's try_fold default body transcribed and verified with a loop invariant), Threshold::new, RawDoc::verified, Delegates/Doc accessors: every Doc constructed satisfies valid() (1..=255 distinct delegates, 1 <= threshold <= #delegates)",
+        "explanation": "Delegates::new is proved to return Ok only with a duplicate-free list of 1..=255 delegates containing exactly the delegates given; Threshold::new is Ok exactly for 1 <= t <= min(255, #delegates); RawDoc::verified returns Ok only with a Doc satisfying valid() whose delegates/threshold/visibility are those of the raw document. Every constructor of Doc in doc.rs goes through these.",
+        "not_decided": "Version check, serde/JSON decoding (that Deserialize goes through RawDoc::verified is by inspection of the serde attribute), encode/decode round-trip and RepoId == git blob hash of the canonical encoding are outside Verus (serde_json, git2): not decided. slice::contains, NonEmpty::from_vec assumed by contract; Iterator::try_fold is represented by a transcription of its default body.",
     },
     "C22": {
         "vx": ["crdt"],
